@@ -124,8 +124,15 @@ def _import ():
   class S_qux (SinkBase):                      # explicit plain component, short attribute names
     def _handle_baz_Ev (self, e): self.w.sink_hit(self, "baz")
     def _all_dependencies_met (self): self.w.sink_ready(self)
+  class S_shx (SinkBase):                      # `components=` is an object SHARED with S_shy (per execution)
+    def _handle_foo_bar_Ev (self, e): self.w.sink_hit(self, "foo_bar")
+    def _all_dependencies_met (self): self.w.sink_ready(self)
+  class S_shy (SinkBase):
+    def _handle_baz_Ev (self, e): self.w.sink_hit(self, "baz")
+    def _all_dependencies_met (self): self.w.sink_ready(self)
   P.SinkBase = SinkBase
-  # kind -> (class, deps, components that have a handler, has completion callback, ltd kwargs)
+  # kind -> (name, class, deps (None: computed per call), components that have an Ev handler, has completion
+  #          callback, ltd kwargs; ("shared", form) stands for the execution's one shared set / list object)
   P.SINKS = [
     ("S_foo",     S_foo,     ("foo",),            ("foo",),           False, {}),
     ("S_foobar",  S_foobar,  ("foo_bar",),        ("foo_bar",),       True,  {}),
@@ -134,7 +141,12 @@ def _import ():
     ("S_core",    S_core,    ("core", "foo"),     ("foo",),           True,  {}),
     ("S_qux",     S_qux,     ("baz", "qux"),      ("baz",),           True,
      {"components": ["qux"], "short_attrs": True}),
+    ("S_shx_set",  S_shx,    None,                ("foo_bar",),       True,  {"components": ("shared", "set")}),
+    ("S_shy_set",  S_shy,    None,                ("baz",),           True,  {"components": ("shared", "set")}),
+    ("S_shx_list", S_shx,    None,                ("foo_bar",),       True,  {"components": ("shared", "list")}),
+    ("S_shy_list", S_shy,    None,                ("baz",),           True,  {"components": ("shared", "list")}),
   ]
+  P.SHARED_INIT = ("foo",)                     # what the caller wrote into the shared collection
   _P = P
   return P
 
@@ -159,6 +171,17 @@ class Env (object):
     gc.collect = self.collect
     _CUR = None
     return False
+
+
+def _snap (x):
+  """Value of a `components` argument, comparable before/after a call."""
+  if isinstance(x, (set, frozenset)): return "%s(%s)" % (type(x).__name__, sorted(x))
+  return repr(x)
+
+
+def _handler_comps (spec):
+  name, cls, deps, handled, adm, kw = spec
+  return handled + (("core",) if hasattr(cls, "_handle_core_ComponentRegistered") else ())
 
 
 def site_of (P, e):
@@ -197,6 +220,8 @@ class World (object):
     self.invocations = 0
     self.objects = {}             # (name, gen) -> object
     self.sinks = {}               # kind -> sink object
+    self.sink_deps = {}           # kind -> components the sink named in its listen_to_dependencies call
+    self.shared = {"set": set(P.SHARED_INIT), "list": list(P.SHARED_INIT)}   # one object each per execution
     self.sink_base = {}           # kind -> number of register calls before core wiring
     self.sink_crs = {}            # kind -> ComponentRegistered deliveries
     self.cr_log = []
@@ -365,7 +390,7 @@ class World (object):
 
   def check_attrs (self, sink):
     name, cls, deps, handled, adm, kw = self.P.SINKS[sink.kind]
-    for d in deps:
+    for d in sorted(self.sink_deps[sink.kind]):
       an = d if kw.get("short_attrs") else "_%s_" % d
       got = getattr(sink, an, None)
       if got is None or got is not self.core.components.get(d):
@@ -408,7 +433,7 @@ class World (object):
                 "probing component objects: handlers called %s, expected %s" % (got, expected),
                 P.SINKS[x[1]][0])
     for kind, base in self.sink_base.items():
-      if "core" in P.SINKS[kind][2]:
+      if "core" in self.sink_deps[kind]:
         exp = len(self.model.reg_calls) - base
         if self.sink_crs.get(kind, 0) != exp:
           self.fail("sink-core-events", "sink %s wired to core saw %d ComponentRegistered, %d registrations since"
@@ -441,10 +466,28 @@ class World (object):
     name, cls, deps, handled, adm, kw = self.P.SINKS[kind]
     sink = cls(self, kind)
     self.sinks[kind] = sink
-    self.decl[("s", kind)] = (None, self.model.ready(deps))
-    self.model.declare(("s", kind), deps, silent=not adm)
+    kw = dict(kw)
+    arg = kw.get("components")
+    form = None
+    if isinstance(arg, tuple) and arg[0] == "shared":
+      form = arg[1]
+      arg = kw["components"] = self.shared[form]       # the SAME object for every sink kind of this form
+    before = _snap(arg)
+    # the components this sink names in THIS call: explicit argument (value now) + its own handler names
+    mine = Model.sink_deps(arg, _handler_comps(self.P.SINKS[kind]))
+    self.sink_deps[kind] = mine
+    self.decl[("s", kind)] = (None, self.model.ready(mine))
+    self.model.declare(("s", kind), mine, silent=not adm)
     self.calls += 1
-    self.core.listen_to_dependencies(sink, **dict(kw))
+    try:
+      self.core.listen_to_dependencies(sink, **kw)
+    finally:
+      if _snap(arg) != before:
+        self.note("  caller's components object: %s -> %s", before, _snap(arg))
+        self.fail("caller-components-modified",
+                  "listen_to_dependencies(%s, components=%s) changed the caller's object to %s (it is reused for "
+                  "the next sink, which then waits for components it never named)" % (name, before, _snap(arg)),
+                  "listen_to_dependencies:" + type(arg).__name__)
 
   def do_goup (self, variant):
     P = self.P
@@ -498,12 +541,15 @@ class World (object):
       regs = [("reg", n) for n in self.names]
       cwrs = []
       forms = prm["forms"]
+      only = prm.get("cwr_masks")               # optional restriction of the waiter alphabet
       for mask in range(1, 1 << self.nc):
+        if only is not None and mask not in only: continue
         single = (mask & (mask - 1)) == 0
         for form in (forms[0] if single else forms[1]):
           cwrs.append(("cwr", mask, form))
-      for form in ("set", "list", "tuple"):
-        cwrs.append(("cwr", 0, form))
+      if only is None:
+        for form in ("set", "list", "tuple"):
+          cwrs.append(("cwr", 0, form))
       st = prm["_static"] = (regs, cwrs, [("goUp", v) for v in prm["goup"]])
     ops = list(st[0])
     if len(self.model.pending) < prm["maxp"]:
@@ -512,7 +558,7 @@ class World (object):
         if kind not in self.sinks: ops.append(("ltd", kind))
     if self.model.starting: ops += st[2]
     for j in range(len(self.deferrals)): ops.append(("release", j))
-    if self.quits < 2: ops.append(("quit",))
+    if self.quits < 2 and not prm.get("noquit"): ops.append(("quit",))
     if self.threads: ops.append(("thread",))
     return ops
 
@@ -588,7 +634,7 @@ class World (object):
     return (tuple(sorted(core.components)), tuple(ws),
             core.running, core.starting_up, len(core._go_up_deferrals), core.scheduler._hasQuit,
             len(self.deferrals), len(self.threads), self.quits, len(self.later),
-            tuple(sinks), self.model.canon())
+            tuple(sinks), tuple(sorted(self.shared["set"])), tuple(self.shared["list"]), self.model.canon())
 
 
 def make_run (P, prm, limit, check_from=0):
@@ -614,11 +660,15 @@ def params (cfg):
   """One or more alphabets/bounds; each is explored completely."""
   q = dict(nc=3, maxp=3, depth=5, dev=2, sinks=[0, 1, 2, 3, 4], goup=GOUP_VARIANTS,
            forms=(("str",), ("list",)))
-  if cfg.quick: return [q]
+  # sinks that pass ONE shared collection object (a set, a list) as `components=`, next to a sink with a private
+  # argument and plain waiters on single components; life-cycle reduced to a plain goUp (no interaction with the argument)
+  shared = dict(nc=3, maxp=cfg.pick(3, 4), depth=cfg.pick(5, 6), dev=1, sinks=[6, 7, 8, 9, 3], goup=[""], noquit=True,
+                cwr_masks=cfg.pick([2, 4], [1, 2, 4]), forms=(("str",), ("list",)))
+  if cfg.quick: return [q, shared]
   deep = dict(q, maxp=4, depth=6)
   wide = dict(nc=4, maxp=5, depth=4, dev=3, sinks=[0, 1, 2, 3, 4, 5], goup=GOUP_VARIANTS,
               forms=(("str", "list"), ("list", "tuple", "set")))
-  return [deep, wide]
+  return [deep, wide, shared]
 
 
 def public (prm):
@@ -657,7 +707,10 @@ def _expand (args):
 RULE = ("breadth-first over canonical states of a real POXCore: every history of <=DEPTH operations from "
         "{register(c) incl. re-registration; call_when_ready(cb, every subset of the components in the given argument "
         "forms, the empty set as set()/default []/()); listen_to_dependencies(one of the sink classes: underscore "
-        "component names, explicit components, short attrs, dependency on core, with/without completion callback); "
+        "component names, explicit components, short attrs, dependency on core, with/without completion callback, "
+        "`components=` being ONE set / list object per execution shared by two sink kinds - the caller's object must "
+        "be left as it was and each sink's dependency set is the argument's value at its own call plus its own "
+        "handler names); "
         "goUp with GoingUp handlers %s (I: deferral released inside the handler, L: released by a later operation, "
         "every order); release; quit (<=2); run of a thread spawned by quit()}, at most MAXP pending waiters; every "
         "waiter callback invoked picks one of {return, raise, register an unregistered component, declare a further "
@@ -780,8 +833,10 @@ def run (cfg):
   rep = Report(PID, "model_checking")
   prms = params(cfg)
   rep.rule = RULE % (GOUP_VARIANTS, "; ".join(
-    "components=%s DEPTH=%d MAXP=%d DEV=%d sinks=%s forms=%s"
-    % (NAMES[:p["nc"]], p["depth"], p["maxp"], p["dev"], [P.SINKS[k][0] for k in p["sinks"]], p["forms"]) for p in prms))
+    "components=%s DEPTH=%d MAXP=%d DEV=%d sinks=%s forms=%s goUp=%s%s"
+    % (NAMES[:p["nc"]], p["depth"], p["maxp"], p["dev"], [P.SINKS[k][0] for k in p["sinks"]], p["forms"], p["goup"],
+       (" no-quit" if p.get("noquit") else "") + (" waiters-only-on-masks=%s" % p["cwr_masks"] if p.get("cwr_masks") else ""))
+    for p in prms))
   rep.bound = dict(configurations=[dict(depth=p["depth"], deviations=p["dev"], components=p["nc"],
                                         pending_waiters=p["maxp"], sinks=len(p["sinks"])) for p in prms])
   rep.assumptions = [
@@ -793,6 +848,11 @@ def run (cfg):
     "UpEvent after a quit, and UpEvent at the release instant inside a GoingUp handler vs. at the end of goUp, are unconstrained",
     "exploration of a history stops at its first violation",
   ]
+  for spec in P.SINKS:
+    if spec[2] is not None:
+      arg = spec[5].get("components")
+      if Model.sink_deps(arg, _handler_comps(spec)) != frozenset(spec[2]):
+        raise RuntimeError("sink table out of date for %s" % spec[0])
   rep.extra["new_states_per_level"] = []
   for prm in prms:
     levels = bfs(cfg, prm, rep)
